@@ -10,6 +10,6 @@ fi
 mkdir -p /tmp/try_verif; cp /verif/KNOWN_FINDINGS.txt /tmp/try_verif/
 for p in "$@"; do
   out=$(/verif/bin/otelcheck -property $p -tier ${TIER:-quick} -verif /tmp/try_verif 2>&1); rc=$?
-  echo "== $p exit=$rc"; echo "$out" | grep -v "^VIOLATION\|^  key" | cut -c1-${WIDTH:-400} | head -${LINES_MAX:-6}
+  echo "== $p exit=$rc"; echo "$out" | grep -v "^VIOLATION\|^  key\|^KNOWN-FINDING" | cut -c1-${WIDTH:-400} | head -${LINES_MAX:-6}
 done
 git reset -q --hard HEAD; git clean -fdq
